@@ -39,9 +39,11 @@ var (
 )
 
 func getNodeBreakersOfResource(resource string) map[string]circuitbreaker.CircuitBreaker {
+	// Copy under the lock: the per-resource map is written in place by
+	// addNodeBreakerOfResource / deleteNodeBreakerOfResource.
 	updateMux.RLock()
+	defer updateMux.RUnlock()
 	nodes := nodeBreakers[resource]
-	updateMux.RUnlock()
 	ret := make(map[string]circuitbreaker.CircuitBreaker, len(nodes))
 	for address, breaker := range nodes {
 		ret[address] = breaker
